@@ -205,3 +205,11 @@ Lemma hf_client_id_sites :
      "encryption.VerifyPublicKeyClientID"] /\
   forallb (fun r => match idr_form r with IdHashOfHexDecode | IdHashOfBytes => true end) hf_client_id = true.
 Proof. vm_compute. split; reflexivity. Qed.
+
+(* no method of Client leaves a key / id field changed without recomputing the id from the stored
+   key (the list is regenerated from chaincore/client on every run) *)
+Lemma hf_client_key_writes_ok : forallb he_pkrule_ok hf_client_key_writes = true.
+Proof. vm_compute. reflexivity. Qed.
+
+Lemma hf_client_key_writes_nonempty : hf_client_key_writes <> [].
+Proof. vm_compute. discriminate. Qed.
